@@ -158,10 +158,34 @@ Proof.
   intros t Ht. apply in_map_iff in Ht as [cs [<- _]]. reflexivity.
 Qed.
 
-(* the other threads are untouched by a step of [g] *)
-Ltac other_thread Hn Hy :=
-  let H := fresh "Hcase" in
-  destruct (nth_error_set_nth_cases _ _ _ _ _ _ Hn Hy) as [[-> ->]|[H Hy']].
+Lemma holds_disjoint t : holds_r t = true -> holds_w t = true -> False.
+Proof. unfold holds_r, holds_w. destruct (t_pc t); discriminate. Qed.
+
+(* effect of one event of a thread on the lock words, as a function of what the thread
+   holds before and after *)
+Lemma step_locks s g t k rest :
+  t_calls t = k :: rest ->
+  enabled s g (ev_at k (t_pc t) (t_read t)) = true ->
+  (holds_r t = true -> 0 < rlocks s) ->
+  (holds_w t = true -> wlock s = Some g) ->
+  rlocks (apply_ev s g (ev_at k (t_pc t) (t_read t))) + (if holds_r t then 1 else 0) =
+    rlocks s + (if holds_r (advance Repaired s t) then 1 else 0) /\
+  wlock (apply_ev s g (ev_at k (t_pc t) (t_read t))) =
+    (if holds_w (advance Repaired s t) then Some g
+     else if holds_w t then None else wlock s) /\
+  (holds_w t = false -> holds_w (advance Repaired s t) = true ->
+   wlock s = None /\ rlocks s = 0) /\
+  (holds_r t = false -> holds_r (advance Repaired s t) = true -> wlock s = None).
+Proof.
+  intros Hcalls Hen Hpos Hme. unfold holds_r, holds_w in *. unfold advance. rewrite Hcalls.
+  destruct (t_pc t) eqn:Hpc; cbn [ev_at] in *;
+    try (destruct (decide k (t_read t)) as [| |o]);
+    cbn [set_pc set_pc_read finish_call t_pc apply_ev set_file rlocks wlock];
+    unfold enabled in Hen;
+    try (specialize (Hpos eq_refl)); try (specialize (Hme eq_refl));
+    (split; [lia|split; [first [reflexivity|exact Hme]|split; intros H1 H2; try discriminate]]);
+    destruct (wlock s); try discriminate; try (apply Nat.eqb_eq in Hen); auto.
+Qed.
 
 Lemma lock_inv_step c g c' :
   lock_inv c -> sched_step Repaired c g = Some c' -> lock_inv c'.
@@ -169,40 +193,669 @@ Proof.
   intros [Hcnt [Hw1 [Hw2 Hw0]]] Hs.
   destruct (sched_step_inv _ _ _ _ Hs) as [t [k [rest [Hn [Hcalls [Hen ->]]]]]].
   pose proof (count_r_set_nth (g_threads c) g t (advance Repaired (g_sh c) t) Hn) as Hc2.
-  assert (Hme : holds_w t = true -> wlock (g_sh c) = Some g) by (apply Hw1; exact Hn).
-  assert (Hothers : forall g' t', g' <> g -> nth_error (g_threads c) g' = Some t' ->
-                                  holds_w t' = true -> wlock (g_sh c) = Some g')
-    by (intros; eapply Hw1; eassumption).
-  assert (Hpos : holds_r t = true -> 0 < count_r (g_threads c))
-    by (apply count_r_pos with (g := g); exact Hn).
+  assert (Hpos : holds_r t = true -> 0 < rlocks (g_sh c)).
+  { intros Hr. rewrite Hcnt. eapply count_r_pos; eassumption. }
+  destruct (step_locks (g_sh c) g t k rest Hcalls Hen Hpos (Hw1 _ _ Hn)) as [HA [HB [HC HD]]].
+  set (t' := advance Repaired (g_sh c) t) in *.
+  set (s' := apply_ev (g_sh c) g (ev_at k (t_pc t) (t_read t))) in *.
   unfold lock_inv. cbn [g_sh g_threads].
-  unfold advance in *. rewrite Hcalls in *.
-  destruct (t_pc t) eqn:Hpc; cbn [ev_at] in *;
-    try (destruct (decide k (t_read t)) as [| |o]);
-    unfold enabled in Hen; cbn [apply_ev set_file file rlocks wlock];
-    unfold holds_r, holds_w in Hc2, Hme, Hpos; rewrite Hpc in Hc2, Hme, Hpos;
-    cbn [holds_r holds_w set_pc set_pc_read finish_call t_pc] in Hc2;
-    (repeat split;
-     [ lia
-     | intros g' t' Hy Hh;
-       destruct (nth_error_set_nth_cases _ _ _ _ _ _ Hn Hy) as [[-> ->]|[Hne Hy']];
-       [ try (cbn in Hh; discriminate Hh); try (apply Hme; reflexivity); try reflexivity
-       | pose proof (Hothers _ _ Hne Hy' Hh) as Ho;
-         try (rewrite Hme in Ho by reflexivity; congruence);
-         try (destruct (wlock (g_sh c)); congruence); try exact Ho ]
-     | intros g' Hg';
-       try discriminate Hg';
-       try (injection Hg' as <-; eexists; split;
-            [eapply nth_error_set_nth_eq; exact Hn|reflexivity]);
-       try (destruct (Hw2 _ Hg') as [t' [Hy' Hh']];
-            destruct (Nat.eq_dec g' g) as [->|Hne];
-            [ rewrite Hn in Hy'; injection Hy' as <-;
-              try (unfold holds_w in Hh'; rewrite Hpc in Hh'; discriminate Hh');
-              eexists; split; [eapply nth_error_set_nth_eq; exact Hn|reflexivity]
-            | exists t'; split; [rewrite nth_error_set_nth_neq by exact Hne; exact Hy'|exact Hh'] ])
-     | intros Hnn;
-       try (destruct (wlock (g_sh c)); [discriminate Hen|congruence]);
-       try (destruct (wlock (g_sh c)); [discriminate Hen|]; apply Nat.eqb_eq in Hen; exact Hen);
-       try congruence;
-       try (pose proof (Hw0 Hnn); lia) ]).
+  split; [|split; [|split]].
+  - lia.
+  - intros g' t2 Hy Hh.
+    destruct (nth_error_set_nth_cases _ _ _ _ _ _ Hn Hy) as [[-> ->]|[Hne Hy']].
+    + rewrite HB, Hh. reflexivity.
+    + pose proof (Hw1 _ _ Hy' Hh) as Ho. rewrite HB.
+      destruct (holds_w t') eqn:E'; destruct (holds_w t) eqn:E.
+      * pose proof (Hw1 _ _ Hn E). congruence.
+      * destruct (HC eq_refl eq_refl). congruence.
+      * pose proof (Hw1 _ _ Hn E). congruence.
+      * exact Ho.
+  - intros g' Hg'. rewrite HB in Hg'.
+    destruct (holds_w t') eqn:E'.
+    + injection Hg' as <-. exists t'. split; [eapply nth_error_set_nth_eq; exact Hn|exact E'].
+    + destruct (holds_w t) eqn:E; [discriminate|].
+      destruct (Hw2 _ Hg') as [t2 [Hy2 Hh2]].
+      assert (Hne : g' <> g) by (intros ->; congruence).
+      exists t2. split; [rewrite nth_error_set_nth_neq by exact Hne; exact Hy2|exact Hh2].
+  - intros Hnn. rewrite HB in Hnn.
+    destruct (holds_w t') eqn:E'.
+    + assert (Hr' : holds_r t' = false).
+      { destruct (holds_r t') eqn:R; [|reflexivity]. destruct (holds_disjoint _ R E'). }
+      rewrite Hr' in HA.
+      destruct (holds_w t) eqn:E.
+      * assert (Hr : holds_r t = false).
+        { destruct (holds_r t) eqn:R; [|reflexivity]. destruct (holds_disjoint _ R E). }
+        rewrite Hr in HA. pose proof (Hw1 _ _ Hn E) as Hg.
+        assert (rlocks (g_sh c) = 0) by (apply Hw0; congruence). lia.
+      * destruct (HC eq_refl eq_refl) as [_ Hz]. destruct (holds_r t); lia.
+    + destruct (holds_w t) eqn:E; [congruence|].
+      pose proof (Hw0 Hnn) as Hz.
+      destruct (holds_r t) eqn:R; [specialize (Hpos eq_refl); lia|].
+      destruct (holds_r t') eqn:R'; [|lia].
+      pose proof (HD eq_refl eq_refl). congruence.
 Qed.
+
+Lemma lock_inv_run c sch c' :
+  lock_inv c -> run_sched Repaired c sch = Some c' -> lock_inv c'.
+Proof. apply (run_sched_ind lock_inv Repaired). intros ? ? ?. apply lock_inv_step. Qed.
+
+(* a writer excludes every other reader and writer *)
+Lemma lock_inv_mutex c g t g' t' :
+  lock_inv c ->
+  nth_error (g_threads c) g = Some t -> holds_w t = true ->
+  nth_error (g_threads c) g' = Some t' -> g' <> g ->
+  holds_r t' = false /\ holds_w t' = false.
+Proof.
+  intros [Hcnt [Hw1 [Hw2 Hw0]]] Hn Hh Hn' Hne.
+  pose proof (Hw1 _ _ Hn Hh) as Hg. split.
+  - eapply count_r_zero; [|exact Hn']. rewrite <- Hcnt. apply Hw0. congruence.
+  - destruct (holds_w t') eqn:E; [|reflexivity]. pose proof (Hw1 _ _ Hn' E). congruence.
+Qed.
+
+(* a reader excludes every writer *)
+Lemma lock_inv_reader c g t g' t' :
+  lock_inv c ->
+  nth_error (g_threads c) g = Some t -> holds_r t = true ->
+  nth_error (g_threads c) g' = Some t' -> holds_w t' = false.
+Proof.
+  intros Hinv Hn Hr Hn'. destruct (holds_w t') eqn:E; [|reflexivity].
+  destruct (Nat.eq_dec g g') as [->|Hne].
+  - rewrite Hn in Hn'. injection Hn' as <-. destruct (holds_disjoint _ Hr E).
+  - destruct (lock_inv_mutex c g' t' g t Hinv Hn' E Hn Hne). congruence.
+Qed.
+
+(* TARGET 1.  Repaired protocol: in every configuration reachable from a configuration in
+   which no lock is held (all goroutines between two calls), if goroutine [g] is between
+   ELock and EUnlock (holds_w) then no other goroutine is between ERLock and ERUnlock
+   (holds_r) or between ELock and EUnlock. *)
+Theorem mutual_exclusion c0 sch c g t g' t' :
+  quiescent c0 ->
+  run_sched Repaired c0 sch = Some c ->
+  nth_error (g_threads c) g = Some t -> holds_w t = true ->
+  nth_error (g_threads c) g' = Some t' -> g' <> g ->
+  holds_r t' = false /\ holds_w t' = false.
+Proof.
+  intros Hq Hr. apply lock_inv_mutex. eapply lock_inv_run; [|exact Hr].
+  now apply quiescent_lock_inv.
+Qed.
+
+Corollary mutual_exclusion_init f prog sch c g t g' t' :
+  run_sched Repaired (init_cfg f prog) sch = Some c ->
+  nth_error (g_threads c) g = Some t -> holds_w t = true ->
+  nth_error (g_threads c) g' = Some t' -> g' <> g ->
+  holds_r t' = false /\ holds_w t' = false.
+Proof. apply mutual_exclusion, init_quiescent. Qed.
+
+(* the lock words themselves: a held write lock means no read lock is held *)
+Corollary writer_excludes_readers c0 sch c :
+  quiescent c0 -> run_sched Repaired c0 sch = Some c ->
+  wlock (g_sh c) <> None -> rlocks (g_sh c) = 0.
+Proof.
+  intros Hq Hr. assert (Hinv : lock_inv c).
+  { eapply lock_inv_run; [|exact Hr]. now apply quiescent_lock_inv. }
+  destruct Hinv as [_ [_ [_ H]]]. exact H.
+Qed.
+
+(* ================================================================== *)
+(* 3. TARGET 2: the Pinned protocol loses and tears entries            *)
+(* ================================================================== *)
+
+(* Goroutine 0 (A) updates its existing entry, goroutine 1 (B) creates a new one.
+   B's unlocked append lands between A's ERead and A's ETrunc: both calls report success
+   (updated / added), B's entry is not in the final file. *)
+Lemma pinned_refuted :
+  exists c,
+    run_sched Pinned (init_cfg ex_file ex_prog) ex_sched_lost = Some c /\
+    finished c = true /\
+    outcomes c = [[OUpdated]; [OAdded]] /\
+    final_file c = Some (frame ex_tidA ex_new) /\
+    get_prev ex_tidB (content (final_file c)) = None.
+Proof. eexists. split; [vm_compute; reflexivity|]. vm_compute. repeat split. Qed.
+
+(* Torn variant: B's append lands between A's ETrunc and A's EWrite; A's write at offset 0
+   overwrites the head of B's frame and the tail of B's frame is left behind. *)
+Lemma pinned_refuted_torn :
+  exists c,
+    run_sched Pinned (init_cfg ex_file ex_prog) ex_sched_torn = Some c /\
+    finished c = true /\
+    outcomes c = [[OUpdated]; [OAdded]] /\
+    final_file c = Some (frame ex_tidA ex_new ++ ex_residue) /\
+    get_prev ex_tidB (content (final_file c)) = None.
+Proof. eexists. split; [vm_compute; reflexivity|]. vm_compute. repeat split. Qed.
+
+(* every serial order of the two calls keeps both entries *)
+Lemma pinned_serial_keeps_both :
+  (let (f, os) := run_serial Pinned ex_file [(0, ex_callA); (1, ex_callB)] in
+   os = [(0, OUpdated); (1, OAdded)] /\
+   option_map fst (get_prev ex_tidB (content f)) = Some ex_snapB /\
+   option_map fst (get_prev ex_tidA (content f)) = Some ex_new) /\
+  (let (f, os) := run_serial Pinned ex_file [(1, ex_callB); (0, ex_callA)] in
+   os = [(1, OAdded); (0, OUpdated)] /\
+   option_map fst (get_prev ex_tidB (content f)) = Some ex_snapB /\
+   option_map fst (get_prev ex_tidA (content f)) = Some ex_new).
+Proof. vm_compute. repeat split. Qed.
+
+(* the Repaired protocol blocks both schedules (B's ELock is not enabled) *)
+Lemma repaired_blocks_counterexamples :
+  run_sched Repaired (init_cfg ex_file ex_prog) ex_sched_lost = None /\
+  run_sched Repaired (init_cfg ex_file ex_prog) ex_sched_torn = None.
+Proof. vm_compute. split; reflexivity. Qed.
+
+(* ================================================================== *)
+(* 4. TARGET 4: atomic counter increments commute                      *)
+(* ================================================================== *)
+
+Lemma tally_bump_comm a b c : tally_bump a (tally_bump b c) = tally_bump b (tally_bump a c).
+Proof. destruct a, b; reflexivity. Qed.
+
+Lemma tally_fold_perm (l l' : list (nat * soutcome)) :
+  Permutation l l' ->
+  forall c, fold_left (fun c x => tally_bump (snd x) c) l c =
+            fold_left (fun c x => tally_bump (snd x) c) l' c.
+Proof.
+  induction 1 as [|x l l' _ IH|x y l|l l' l'' _ IH1 _ IH2]; intros c; cbn [fold_left].
+  - reflexivity.
+  - apply IH.
+  - now rewrite tally_bump_comm.
+  - now rewrite IH1.
+Qed.
+
+(* any two interleavings of the same increments give the same counters *)
+Theorem counters_commute (l l' : list (nat * soutcome)) :
+  Permutation l l' -> tally_of l = tally_of l'.
+Proof. intros H. unfold tally_of. now apply tally_fold_perm. Qed.
+
+Lemma tally_fold_counts (l : list (nat * soutcome)) c :
+  let r := fold_left (fun c x => tally_bump (snd x) c) l c in
+  k_passed r = k_passed c + length (filter (is_o OPassed) l) /\
+  k_added r = k_added c + length (filter (is_o OAdded) l) /\
+  k_updated r = k_updated c + length (filter (is_o OUpdated) l) /\
+  k_erred r = k_erred c + length (filter is_err l).
+Proof.
+  revert c. induction l as [|[g o] l IH]; intros c; cbn [fold_left filter snd].
+  - cbn. lia.
+  - specialize (IH (tally_bump o c)). cbn zeta in IH. cbn zeta.
+    destruct IH as [H1 [H2 [H3 H4]]]. rewrite H1, H2, H3, H4.
+    unfold is_o, is_err. cbn [snd]. destruct o; cbn; lia.
+Qed.
+
+(* ... namely the multiset counts *)
+Theorem counters_count (l : list (nat * soutcome)) :
+  k_passed (tally_of l) = length (filter (is_o OPassed) l) /\
+  k_added (tally_of l) = length (filter (is_o OAdded) l) /\
+  k_updated (tally_of l) = length (filter (is_o OUpdated) l) /\
+  k_erred (tally_of l) = length (filter is_err l).
+Proof. apply (tally_fold_counts l tally0). Qed.
+
+(* ================================================================== *)
+(* 5. entries-level effect of a sequence of calls                      *)
+(* ================================================================== *)
+
+Lemma render_snoc es e : render (es ++ [e]) = render es ++ frame (fst e) (snd e).
+Proof.
+  unfold render, render_lines. rewrite flat_map_app, unlines_app. cbn [flat_map].
+  rewrite app_nil_r. unfold entry_lines. now rewrite <- frame_unlines.
+Qed.
+
+Lemma lookup_entry_snoc h es e :
+  lookup_entry h (es ++ [e]) =
+  match lookup_entry h es with
+  | Some b => Some b
+  | None => if beq (fst e) h then Some (snd e) else None
+  end.
+Proof.
+  induction es as [|x es IH]; cbn [app lookup_entry]; [reflexivity|].
+  destruct (beq (fst x) h); [reflexivity|exact IH].
+Qed.
+
+Lemma lookup_entry_none_ids h es : lookup_entry h es = None -> ~ In h (map fst es).
+Proof.
+  induction es as [|x es IH]; cbn [lookup_entry map]; [intros _ []|].
+  destruct (beq_spec (fst x) h) as [E|Hne]; [discriminate|].
+  intros Hl [Hx|Hin]; [congruence|now apply IH].
+Qed.
+
+Lemma no_collision_snoc h es e :
+  no_collision h es -> ~ In h (split_nl (snd e)) -> no_collision h (es ++ [e]).
+Proof.
+  intros Hes He. unfold no_collision. apply Forall_app. split; [exact Hes|].
+  constructor; [exact He|constructor].
+Qed.
+
+Section Entries.
+  Variable H : list bytes.
+  Variable es0 : list entry.
+  Hypothesis Hwf0 : Forall wf_entry es0.
+  Hypothesis Hnc0 : no_collisions H es0.
+
+  Lemma es_of_snoc l c : es_of es0 (l ++ [c]) = apply_call es0 (es_of es0 l) c.
+  Proof. unfold es_of. now rewrite fold_left_app. Qed.
+
+  Lemma es_of_cons_gen es l c :
+    fold_left (apply_call es0) (c :: l) es = fold_left (apply_call es0) l (apply_call es0 es c).
+  Proof. reflexivity. Qed.
+
+  Lemma is_writer_false c :
+    is_writer es0 c = false -> spec_outcome es0 c <> OAdded /\ spec_outcome es0 c <> OUpdated.
+  Proof.
+    unfold is_writer, is_added, is_updated. destruct (spec_outcome es0 c); cbn; intros Hw;
+      try discriminate; split; discriminate.
+  Qed.
+
+  Lemma apply_call_nonwriter es c : is_writer es0 c = false -> apply_call es0 es c = es.
+  Proof.
+    unfold is_writer, is_added, is_updated, apply_call.
+    destruct (spec_outcome es0 c); cbn; intros Hw; try discriminate; reflexivity.
+  Qed.
+
+  (* one call leaves every other header alone *)
+  Lemma apply_call_lookup_other es c h :
+    (is_writer es0 c = true -> cl_tid c <> h) ->
+    lookup_entry h (apply_call es0 es c) = lookup_entry h es.
+  Proof.
+    intros Hne. destruct (is_writer es0 c) eqn:Hw.
+    - specialize (Hne eq_refl). unfold apply_call.
+      destruct (spec_outcome es0 c); try reflexivity.
+      + rewrite lookup_entry_snoc. cbn [fst snd].
+        destruct (lookup_entry h es); [reflexivity|].
+        destruct (beq_spec (cl_tid c) h); [contradiction|reflexivity].
+      + apply lookup_replace_other. congruence.
+    - now rewrite apply_call_nonwriter.
+  Qed.
+
+  (* headers not addressed by a writing call keep their entry *)
+  Lemma es_lookup_untouched l h :
+    (forall c, In c l -> is_writer es0 c = true -> cl_tid c <> h) ->
+    lookup_entry h (es_of es0 l) = lookup_entry h es0.
+  Proof.
+    induction l as [|c l IH] using rev_ind; intros Hl; [reflexivity|].
+    rewrite es_of_snoc, apply_call_lookup_other.
+    - apply IH. intros c' Hin. apply Hl. apply in_or_app. now left.
+    - apply Hl. apply in_or_app. right. now left.
+  Qed.
+
+  Lemma es_lookup_fresh l h :
+    ~ In h (map cl_tid l) -> lookup_entry h (es_of es0 l) = lookup_entry h es0.
+  Proof.
+    intros Hni. apply es_lookup_untouched. intros c Hin _ E. apply Hni.
+    rewrite <- E. now apply in_map.
+  Qed.
+
+  Lemma apply_call_wf es c :
+    Forall wf_entry es -> ok_call H c -> Forall wf_entry (apply_call es0 es c).
+  Proof.
+    intros Hes [_ [Hw _]]. unfold apply_call. destruct (spec_outcome es0 c); try exact Hes.
+    - apply Forall_app. split; [exact Hes|]. constructor; [exact Hw|constructor].
+    - now apply replace_wf.
+  Qed.
+
+  Lemma apply_call_nc es c :
+    no_collisions H es -> ok_call H c -> no_collisions H (apply_call es0 es c).
+  Proof.
+    intros Hes [_ [_ Hs]] h Hh. specialize (Hes h Hh). specialize (Hs h Hh).
+    unfold apply_call. destruct (spec_outcome es0 c); try exact Hes.
+    - now apply no_collision_snoc.
+    - now apply replace_no_collision.
+  Qed.
+
+  Lemma es_of_wf l : Forall (ok_call H) l -> Forall wf_entry (es_of es0 l).
+  Proof.
+    induction l as [|c l IH] using rev_ind; intros Hl; [exact Hwf0|].
+    apply Forall_app in Hl as [Hl Hc]. inversion Hc; subst.
+    rewrite es_of_snoc. apply apply_call_wf; auto.
+  Qed.
+
+  Lemma es_of_nc l : Forall (ok_call H) l -> no_collisions H (es_of es0 l).
+  Proof.
+    induction l as [|c l IH] using rev_ind; intros Hl; [exact Hnc0|].
+    apply Forall_app in Hl as [Hl Hc]. inversion Hc; subst.
+    rewrite es_of_snoc. apply apply_call_nc; auto.
+  Qed.
+
+  (* the ids: those of es0, then the added headers in the order of the additions *)
+  Lemma es_of_ids l :
+    map fst (es_of es0 l) = map fst es0 ++ map cl_tid (filter (is_added es0) l).
+  Proof.
+    induction l as [|c l IH] using rev_ind; [cbn; now rewrite app_nil_r|].
+    rewrite es_of_snoc, filter_app, map_app, app_assoc, <- IH.
+    unfold apply_call, is_added. cbn [filter].
+    destruct (spec_outcome es0 c); cbn [map]; rewrite ?app_nil_r; try reflexivity.
+    - now rewrite map_app.
+    - apply replace_ids.
+  Qed.
+
+  (* a writing call's header holds its text afterwards, whatever other slots do later *)
+  Lemma es_lookup_written l c :
+    NoDup (map cl_tid l) -> In c l -> is_writer es0 c = true ->
+    lookup_entry (cl_tid c) (es_of es0 l) = Some (cl_snap c).
+  Proof.
+    induction l as [|x l IH] using rev_ind; intros Hnd Hin Hw; [destruct Hin|].
+    rewrite map_app in Hnd. cbn [map] in Hnd.
+    pose proof (NoDup_remove_1 _ _ _ Hnd) as Hnd1. rewrite app_nil_r in Hnd1.
+    pose proof (NoDup_remove_2 _ _ _ Hnd) as Hni. rewrite app_nil_r in Hni.
+    rewrite es_of_snoc. apply in_app_or in Hin as [Hin|[->|[]]].
+    - rewrite apply_call_lookup_other; [now apply IH|].
+      intros _ E. apply Hni. rewrite E. now apply in_map.
+    - pose proof (es_lookup_fresh l (cl_tid c) Hni) as Hfresh.
+      unfold apply_call. unfold is_writer, is_added, is_updated in Hw.
+      destruct (spec_outcome es0 c) eqn:Hs; try discriminate.
+      + rewrite lookup_entry_snoc, Hfresh. cbn [fst snd]. rewrite beq_refl.
+        unfold spec_outcome in Hs. destruct (lookup_entry (cl_tid c) es0) as [b|]; [|reflexivity].
+        destruct (cl_same c b); [discriminate|]. destruct (cl_update c); discriminate.
+      + apply lookup_replace_same. rewrite Hfresh.
+        unfold spec_outcome in Hs. destruct (lookup_entry (cl_tid c) es0) as [b|]; [discriminate|].
+        destruct (cl_create c); discriminate.
+  Qed.
+
+  (* what getPrevSnapshot + matchSnapshot decide on a rendered file *)
+  Lemma decide_render es c :
+    Forall wf_entry es -> no_collisions H es -> ok_call H c ->
+    lookup_entry (cl_tid c) es = lookup_entry (cl_tid c) es0 ->
+    decide c (render es) = decision_of (spec_outcome es0 c).
+  Proof.
+    intros Hes Hnc [Hin [[_ [Hne [Hnend _]]] _]] Hl. cbn [fst] in Hne, Hnend.
+    pose proof (get_prev_render (cl_tid c) es Hes (Hnc _ Hin) Hne Hnend) as Hg.
+    unfold decide, spec_outcome. rewrite <- Hl, <- Hg.
+    destruct (get_prev (cl_tid c) (render es)) as [[b n]|]; cbn [option_map fst].
+    - destruct (cl_same c b); [reflexivity|]. destruct (cl_update c); reflexivity.
+    - destruct (cl_create c); reflexivity.
+  Qed.
+End Entries.
+
+(* ================================================================== *)
+(* 6. the invariant of the Repaired protocol                           *)
+(* ================================================================== *)
+
+Lemma NoDup_app_notin {A} (a b : list A) x : NoDup (a ++ b) -> In x b -> ~ In x a.
+Proof.
+  induction a as [|y a IH]; cbn; intros Hnd Hb; [intros []|].
+  inversion Hnd as [|? ? Hy Hnd']; subst. intros [->|Ha].
+  - apply Hy. apply in_or_app. now right.
+  - now apply (IH Hnd' Hb).
+Qed.
+
+Lemma proj_snoc_same g l k : proj g (l ++ [(g, k)]) = proj g l ++ [k].
+Proof.
+  unfold proj. rewrite filter_app, map_app. cbn [filter fst]. now rewrite Nat.eqb_refl.
+Qed.
+
+Lemma proj_snoc_other g g2 l (k : call) : g2 <> g -> proj g2 (l ++ [(g, k)]) = proj g2 l.
+Proof.
+  intros Hne. unfold proj. rewrite filter_app, map_app. cbn [filter fst].
+  destruct (Nat.eqb_spec g g2) as [E|_]; [congruence|]. cbn. now rewrite app_nil_r.
+Qed.
+
+Lemma puw_holds_w t : t_pc t = PUw -> holds_w t = true.
+Proof. unfold holds_w. now intros ->. Qed.
+
+(* a thread that holds no lock does not depend on the current entries *)
+Lemma thr_ok_other H es0 E E' t :
+  thr_ok H es0 E t -> holds_r t = false -> holds_w t = false -> thr_ok H es0 E' t.
+Proof.
+  unfold thr_ok, holds_r, holds_w. intros [Hok Hpc] Hr Hw. split; [exact Hok|].
+  destruct (t_calls t); [exact Hpc|]. destruct (t_pc t); try discriminate; exact Hpc.
+Qed.
+
+Section Invariant.
+  Variable H : list bytes.
+  Variable es0 : list entry.
+  Variable prog : list (list call).
+  Hypothesis Hwf0 : Forall wf_entry es0.
+  Hypothesis Hnc0 : no_collisions H es0.
+
+  (* One step of thread [g] from [t] to [t'] with new shared state [s'] and linearised
+     calls [lg]: the invariant is preserved under obligations local to that thread. *)
+  Lemma inv_step_gen c l g t k rest t' s' lg :
+    sched_inv H es0 prog c l ->
+    nth_error (g_threads c) g = Some t -> t_calls t = k :: rest ->
+    lock_inv {| g_sh := s'; g_threads := set_nth g t' (g_threads c) |} ->
+    ((lg = [] /\ unlogged t' = unlogged t) \/
+     (lg = [(g, k)] /\ unlogged t = k :: unlogged t')) ->
+    trace es0 t' = trace es0 t ->
+    (es_of es0 (map snd (l ++ lg)) = es_of es0 (map snd l) \/ holds_w t = true) ->
+    (holds_w t = true \/ content (file s') = content (file (g_sh c))) ->
+    thr_ok H es0 (es_of es0 (map snd (l ++ lg))) t' ->
+    (t_pc t' <> PUw ->
+     (t_pc t <> PUw -> content (file (g_sh c)) = render (es_of es0 (map snd l))) ->
+     content (file s') = render (es_of es0 (map snd (l ++ lg)))) ->
+    (t_pc t' = PUw -> content (file s') = []) ->
+    sched_inv H es0 prog {| g_sh := s'; g_threads := set_nth g t' (g_threads c) |} (l ++ lg).
+  Proof.
+    intros Hinv Hn Hcalls Hlock Hlog Htrace HE Hcont Hthr' Hfile' Htorn'.
+    destruct Hinv as [Ilock Ilen Ifile Itorn Ithr Inodup Ilogok Iprog].
+    assert (Hk : ok_call H k).
+    { destruct (Ithr _ _ Hn) as [Hok _]. rewrite Hcalls in Hok. now inversion Hok. }
+    constructor; cbn [g_sh g_threads].
+    - exact Hlock.
+    - now rewrite length_set_nth.
+    - intros Hall. apply Hfile'.
+      + apply (Hall g). eapply nth_error_set_nth_eq; exact Hn.
+      + intros Hpc. apply Ifile. intros g2 t2 Hn2.
+        destruct (Nat.eq_dec g2 g) as [->|Hne].
+        * rewrite Hn in Hn2. injection Hn2 as <-. exact Hpc.
+        * apply (Hall g2). now rewrite nth_error_set_nth_neq.
+    - intros g2 t2 Hy Hpc2.
+      destruct (nth_error_set_nth_cases _ _ _ _ _ _ Hn Hy) as [[-> ->]|[Hne Hy']].
+      + now apply Htorn'.
+      + destruct Hcont as [Hw|Hc].
+        * destruct (lock_inv_mutex c g t g2 t2 Ilock Hn Hw Hy' Hne) as [_ Hw2].
+          rewrite (puw_holds_w _ Hpc2) in Hw2. discriminate.
+        * rewrite Hc. eapply Itorn; eassumption.
+    - intros g2 t2 Hy.
+      destruct (nth_error_set_nth_cases _ _ _ _ _ _ Hn Hy) as [[-> ->]|[Hne Hy']].
+      + exact Hthr'.
+      + destruct HE as [->|Hw]; [now apply (Ithr g2)|].
+        destruct (lock_inv_mutex c g t g2 t2 Ilock Hn Hw Hy' Hne) as [Hr2 Hw2].
+        eapply thr_ok_other; [apply (Ithr g2); exact Hy'|exact Hr2|exact Hw2].
+    - destruct Hlog as [[-> Hu]|[-> Hu]].
+      + rewrite app_nil_r. now rewrite (concat_map_set_nth_same unlogged _ g t t' Hn Hu).
+      + replace (map snd (l ++ [(g, k)])) with (map snd l ++ [k]) by (now rewrite map_app).
+        eapply Permutation_NoDup; [|exact Inodup].
+        apply Permutation_map. rewrite <- app_assoc. apply Permutation_app_head. cbn [app].
+        eapply concat_map_set_nth_perm; eassumption.
+    - destruct Hlog as [[-> _]|[-> _]]; [now rewrite app_nil_r|].
+      rewrite map_app. apply Forall_app. split; [exact Ilogok|]. cbn. constructor; [exact Hk|constructor].
+    - intros g2 t2 Hy.
+      destruct (nth_error_set_nth_cases _ _ _ _ _ _ Hn Hy) as [[-> ->]|[Hne Hy']].
+      + destruct (Iprog _ _ Hn) as [pg [Hpg [Htr Hpr]]]. exists pg.
+        split; [exact Hpg|]. split; [now rewrite Htrace|].
+        destruct Hlog as [[-> Hu]|[-> Hu]].
+        * now rewrite app_nil_r, Hu.
+        * rewrite proj_snoc_same, <- app_assoc. cbn [app]. now rewrite <- Hu.
+      + destruct (Iprog _ _ Hy') as [pg [Hpg [Htr Hpr]]]. exists pg.
+        split; [exact Hpg|]. split; [exact Htr|].
+        destruct Hlog as [[-> _]|[-> _]]; [now rewrite app_nil_r|].
+        now rewrite proj_snoc_other.
+  Qed.
+
+  Lemma inv_entries c l :
+    sched_inv H es0 prog c l ->
+    Forall wf_entry (es_of es0 (map snd l)) /\ no_collisions H (es_of es0 (map snd l)).
+  Proof.
+    intros Hinv. pose proof (si_logok _ _ _ _ _ Hinv) as Hok.
+    split; [now apply (es_of_wf H)|now apply es_of_nc].
+  Qed.
+
+  (* the header of a call that is not linearised yet has not been touched *)
+  Lemma unlogged_fresh c l g t k :
+    sched_inv H es0 prog c l -> nth_error (g_threads c) g = Some t -> In k (unlogged t) ->
+    ~ In (cl_tid k) (map cl_tid (map snd l)).
+  Proof.
+    intros Hinv Hn Hin. pose proof (si_nodup _ _ _ _ _ Hinv) as Hnd. rewrite map_app in Hnd.
+    eapply NoDup_app_notin; [exact Hnd|]. apply in_map. apply in_concat.
+    exists (unlogged t). split; [|exact Hin]. apply in_map. eapply nth_error_In; exact Hn.
+  Qed.
+
+  Lemma unlogged_lookup c l g t k :
+    sched_inv H es0 prog c l -> nth_error (g_threads c) g = Some t -> In k (unlogged t) ->
+    lookup_entry (cl_tid k) (es_of es0 (map snd l)) = lookup_entry (cl_tid k) es0.
+  Proof. intros Hinv Hn Hin. apply es_lookup_fresh. eapply unlogged_fresh; eassumption. Qed.
+
+  (* under a read lock, or under the write lock outside the truncate window, the file is
+     the rendering of the current entries *)
+  Lemma file_when_reader c l g t :
+    sched_inv H es0 prog c l -> nth_error (g_threads c) g = Some t -> holds_r t = true ->
+    content (file (g_sh c)) = render (es_of es0 (map snd l)).
+  Proof.
+    intros Hinv Hn Hr. apply (si_file _ _ _ _ _ Hinv). intros g2 t2 Hn2 Hpc.
+    pose proof (lock_inv_reader c g t g2 t2 (si_lock _ _ _ _ _ Hinv) Hn Hr Hn2) as Hw.
+    rewrite (puw_holds_w _ Hpc) in Hw. discriminate.
+  Qed.
+
+  Lemma file_when_writer c l g t :
+    sched_inv H es0 prog c l -> nth_error (g_threads c) g = Some t -> holds_w t = true ->
+    t_pc t <> PUw ->
+    content (file (g_sh c)) = render (es_of es0 (map snd l)).
+  Proof.
+    intros Hinv Hn Hw Hpc. apply (si_file _ _ _ _ _ Hinv). intros g2 t2 Hn2 Hpc2.
+    destruct (Nat.eq_dec g2 g) as [->|Hne].
+    - rewrite Hn in Hn2. injection Hn2 as <-. contradiction.
+    - destruct (lock_inv_mutex c g t g2 t2 (si_lock _ _ _ _ _ Hinv) Hn Hw Hn2 Hne) as [_ Hw2].
+      rewrite (puw_holds_w _ Hpc2) in Hw2. discriminate.
+  Qed.
+
+  Lemma es_of_log_nonwriter (l : list (nat * call)) (g : nat) k :
+    is_writer es0 k = false ->
+    es_of es0 (map snd (l ++ [(g, k)])) = es_of es0 (map snd l).
+  Proof. intros Hw. rewrite map_app. cbn [map snd]. now rewrite es_of_snoc, apply_call_nonwriter. Qed.
+
+  Lemma es_of_log_added (l : list (nat * call)) (g : nat) k :
+    spec_outcome es0 k = OAdded ->
+    es_of es0 (map snd (l ++ [(g, k)])) = es_of es0 (map snd l) ++ [(cl_tid k, cl_snap k)].
+  Proof. intros Hs. rewrite map_app. cbn [map snd]. rewrite es_of_snoc. unfold apply_call. now rewrite Hs. Qed.
+
+  Lemma es_of_log_updated (l : list (nat * call)) (g : nat) k :
+    spec_outcome es0 k = OUpdated ->
+    es_of es0 (map snd (l ++ [(g, k)])) =
+    map (replace_entry (cl_tid k) (cl_snap k)) (es_of es0 (map snd l)).
+  Proof. intros Hs. rewrite map_app. cbn [map snd]. rewrite es_of_snoc. unfold apply_call. now rewrite Hs. Qed.
+
+  Ltac silent_step Hinv Hn Hcalls Hlock' Hpc Hoks :=
+    eapply inv_step_gen with (lg := []);
+    [ exact Hinv | exact Hn | exact Hcalls | exact Hlock'
+    | left; split; [reflexivity|unfold unlogged; cbn [set_pc set_pc_read finish_call t_pc t_calls];
+                                rewrite ?Hpc, ?Hcalls; reflexivity]
+    | unfold trace; cbn [set_pc set_pc_read finish_call t_out t_calls]; try reflexivity
+    | left; rewrite app_nil_r; reflexivity
+    | right; cbn [apply_ev set_file file]; try reflexivity
+    | rewrite app_nil_r; split; cbn [set_pc set_pc_read finish_call t_pc t_calls t_read];
+      rewrite ?Hcalls; cbn [tl]; [try exact Hoks|auto]
+    | intros _ Hf; rewrite app_nil_r; cbn [apply_ev set_file file content];
+      apply Hf; rewrite Hpc; discriminate
+    | cbn [set_pc set_pc_read finish_call t_pc]; discriminate ].
+
+  (* a non-writing call returns at its decision: logged, entries unchanged *)
+  Ltac finish_step Hinv Hn Hcalls Hlock' Hpc Hspec Hrest rest :=
+    let HE := fresh "HE" in
+    match goal with
+    | |- sched_inv _ _ _ _ (?l ++ [(?g, ?k)]) =>
+      assert (HE : es_of es0 (map snd (l ++ [(g, k)])) = es_of es0 (map snd l))
+        by (apply es_of_log_nonwriter; unfold is_writer, is_added, is_updated;
+            rewrite Hspec; reflexivity);
+      eapply inv_step_gen with (lg := [(g, k)]);
+      [ exact Hinv | exact Hn | exact Hcalls | exact Hlock'
+      | right; split; [reflexivity|unfold unlogged; cbn [finish_call t_pc t_calls];
+                                   rewrite Hpc, Hcalls; reflexivity]
+      | unfold trace; cbn [finish_call t_out t_calls]; rewrite Hcalls; cbn [tl map];
+        rewrite Hspec, <- app_assoc; reflexivity
+      | left; exact HE
+      | right; reflexivity
+      | rewrite HE; split; cbn [finish_call t_pc t_calls]; rewrite Hcalls; cbn [tl];
+        [exact Hrest|destruct rest; auto]
+      | intros _ Hf; rewrite HE; cbn [apply_ev set_file file content];
+        apply Hf; rewrite Hpc; discriminate
+      | cbn [finish_call t_pc]; discriminate ]
+    end.
+
+  (* one step of the Repaired protocol preserves the invariant; the log grows by the call
+     linearised by that step *)
+  Lemma sched_inv_step c l g c' :
+    sched_inv H es0 prog c l -> sched_step Repaired c g = Some c' ->
+    sched_inv H es0 prog c' (l ++ lin_step c g).
+  Proof.
+    intros Hinv Hs.
+    pose proof (lock_inv_step _ _ _ (si_lock _ _ _ _ _ Hinv) Hs) as Hlock'.
+    destruct (sched_step_inv _ _ _ _ Hs) as [t [k [rest [Hn [Hcalls [Hen ->]]]]]].
+    unfold lin_step. rewrite Hn. unfold lin_point. rewrite Hcalls.
+    destruct (si_thr _ _ _ _ _ Hinv g t Hn) as [Hoks Hpcinfo]. rewrite Hcalls in Hoks, Hpcinfo.
+    assert (Hk : ok_call H k) by (now inversion Hoks).
+    assert (Hrest : Forall (ok_call H) rest) by (now inversion Hoks).
+    destruct (inv_entries c l Hinv) as [HwfE HncE].
+    unfold advance in *. rewrite Hcalls in *.
+    destruct (t_pc t) eqn:Hpc; cbn [ev_at] in *.
+    - (* PIdle: ERLock *) silent_step Hinv Hn Hcalls Hlock' Hpc Hoks.
+    - (* PRd: ERead *) silent_step Hinv Hn Hcalls Hlock' Hpc Hoks.
+      eapply file_when_reader; [exact Hinv|exact Hn|]. unfold holds_r. now rewrite Hpc.
+    - (* PRu: ERUnlock and the decision *)
+      assert (Hfresh : lookup_entry (cl_tid k) (es_of es0 (map snd l)) = lookup_entry (cl_tid k) es0).
+      { eapply unlogged_lookup; [exact Hinv|exact Hn|]. unfold unlogged. rewrite Hpc, Hcalls. now left. }
+      rewrite Hpcinfo in *.
+      rewrite (decide_render H es0 _ k HwfE HncE Hk Hfresh) in *.
+      destruct (spec_outcome es0 k) eqn:Hspec; cbn [decision_of] in *.
+      + finish_step Hinv Hn Hcalls Hlock' Hpc Hspec Hrest rest.
+      + silent_step Hinv Hn Hcalls Hlock' Hpc Hoks.
+      + silent_step Hinv Hn Hcalls Hlock' Hpc Hoks.
+      + finish_step Hinv Hn Hcalls Hlock' Hpc Hspec Hrest rest.
+      + finish_step Hinv Hn Hcalls Hlock' Hpc Hspec Hrest rest.
+    - (* PAl *) silent_step Hinv Hn Hcalls Hlock' Hpc Hoks.
+    - (* PAm *) silent_step Hinv Hn Hcalls Hlock' Hpc Hoks.
+    - (* PAo *) silent_step Hinv Hn Hcalls Hlock' Hpc Hoks.
+    - (* PAa: EAppend *)
+      assert (Hw : holds_w t = true) by (unfold holds_w; now rewrite Hpc).
+      assert (Hpcw : t_pc t <> PUw) by (rewrite Hpc; discriminate).
+      eapply inv_step_gen with (lg := [(g, k)]);
+        [ exact Hinv | exact Hn | exact Hcalls | exact Hlock' | | | | | | | ].
+      + right. split; [reflexivity|]. unfold unlogged. cbn [set_pc t_pc t_calls].
+        now rewrite Hpc, Hcalls.
+      + reflexivity.
+      + now right.
+      + now left.
+      + split; cbn [set_pc t_pc t_calls]; rewrite Hcalls; [exact Hoks|exact Hpcinfo].
+      + intros _ Hf. rewrite (es_of_log_added l g k Hpcinfo), render_snoc.
+        cbn [apply_ev set_file file content fst snd]. now rewrite (Hf Hpcw).
+      + cbn [set_pc t_pc]. discriminate.
+    - (* PAu: EUnlock *) silent_step Hinv Hn Hcalls Hlock' Hpc Hoks.
+      + rewrite Hcalls. cbn [tl map]. rewrite Hpcinfo, <- app_assoc. reflexivity.
+      + exact Hrest.
+      + destruct rest; auto.
+    - (* PUl *) silent_step Hinv Hn Hcalls Hlock' Hpc Hoks.
+    - (* PUo *) silent_step Hinv Hn Hcalls Hlock' Hpc Hoks.
+    - (* PUr: ERead under the write lock *)
+      silent_step Hinv Hn Hcalls Hlock' Hpc Hoks.
+      split; [exact Hpcinfo|].
+      eapply file_when_writer; [exact Hinv|exact Hn| |rewrite Hpc; discriminate].
+      unfold holds_w. now rewrite Hpc.
+    - (* PUt: ETrunc *)
+      assert (Hw : holds_w t = true) by (unfold holds_w; now rewrite Hpc).
+      eapply inv_step_gen with (lg := []);
+        [ exact Hinv | exact Hn | exact Hcalls | exact Hlock' | | | | | | | ].
+      + left. split; [reflexivity|]. unfold unlogged. cbn [set_pc t_pc t_calls]. now rewrite Hpc.
+      + reflexivity.
+      + now right.
+      + now left.
+      + rewrite app_nil_r. split; cbn [set_pc t_pc t_calls t_read]; rewrite Hcalls; [exact Hoks|exact Hpcinfo].
+      + intros Hne. cbn [set_pc t_pc] in Hne. congruence.
+      + intros _. reflexivity.
+    - (* PUw: EWrite *)
+      assert (Hw : holds_w t = true) by (unfold holds_w; now rewrite Hpc).
+      destruct Hpcinfo as [Hspec Hread].
+      assert (Hempty : content (file (g_sh c)) = []) by (eapply (si_torn _ _ _ _ _ Hinv); eassumption).
+      eapply inv_step_gen with (lg := [(g, k)]);
+        [ exact Hinv | exact Hn | exact Hcalls | exact Hlock' | | | | | | | ].
+      + right. split; [reflexivity|]. unfold unlogged. cbn [set_pc t_pc t_calls].
+        now rewrite Hpc, Hcalls.
+      + reflexivity.
+      + now right.
+      + now left.
+      + split; cbn [set_pc t_pc t_calls]; rewrite Hcalls; [exact Hoks|exact Hspec].
+      + intros _ _. rewrite (es_of_log_updated l g k Hspec).
+        cbn [apply_ev set_file file content]. rewrite Hempty, skipn_nil, app_nil_r, Hread.
+        destruct Hk as [Hin [[_ [Hne [Hnend _]]] _]]. cbn [fst] in Hne, Hnend.
+        apply update_entry_render; auto.
+      + cbn [set_pc t_pc]. discriminate.
+    - (* PUu: EUnlock *) silent_step Hinv Hn Hcalls Hlock' Hpc Hoks.
+      + rewrite Hcalls. cbn [tl map]. rewrite Hpcinfo, <- app_assoc. reflexivity.
+      + exact Hrest.
+      + destruct rest; auto.
+  Qed.
+End Invariant.
